@@ -308,7 +308,9 @@ func (r *runner) cCommit(force bool) {
 	} else {
 		r.res.classes["caller_commit_loop"]++
 	}
-	r.emitTasks()
+	if !r.cs.aborted { // after an aborting error of process the task bookkeeping is unspecified (map iteration order)
+		r.emitTasks()
+	}
 	r.after()
 	r.checkDb("after the downloader's commit")
 	r.checkComplete("after the downloader's commit")
